@@ -91,6 +91,16 @@ Definition read_outcome (st : style) (t : text) (o : outcome) : option (nat * op
       end
   end.
 
+Fixpoint rstrip_shy (t : text) : text :=
+  match t with
+  | [] => []
+  | c :: t' => match rstrip_shy t' with [] => if is_shy c then [] else [c] | r => c :: r end
+  end.
+(* first position >= i of t that does not hold a soft hyphen *)
+Definition skip_shy (t : text) (i : nat) : nat :=
+  i + length (fst (List.fold_left (fun '(acc, go) c => if go && is_shy c then (c :: acc, true) else (acc, false))
+                                  (skipn i t) ([], true))).
+
 (* bit 1: line end / next start differ from the greedy spec, bit 2: hyphen flag differs, bit 3: reported width is
    not the advance of the reported text, bit 4: unreadable outcome (exception / cut inside a character) *)
 Definition spec_mask (st : style) (t : text) (mw : option Q) (ils mini : bool) (o : outcome) : nat :=
@@ -98,9 +108,15 @@ Definition spec_mask (st : style) (t : text) (mw : option Q) (ils mini : bool) (
   match read_outcome st t o with
   | None => 16%nat
   | Some (e, r, hy, wd_ok) =>
-      ((if (e =? sp_end s)%nat && match r, norm_next t (sp_next s) with
-                                  | Some a, Some b => (a =? b)%nat | None, None => true | _, _ => false end
-        then 0 else 2) +
+      (* when no hyphen is shown, an (invisible) soft hyphen may sit on either side of a break made inside a word *)
+      let same_end := (e =? sp_end s)%nat ||
+                      (negb hy && negb (sp_hyphen s) &&
+                       (length (rstrip_shy (firstn e t)) =? length (rstrip_shy (firstn (sp_end s) t)))%nat) in
+      let same_next := match r, norm_next t (sp_next s) with
+                       | Some a, Some b => (a =? b)%nat ||
+                                           (negb hy && negb (sp_hyphen s) && (skip_shy t a =? skip_shy t b)%nat)
+                       | None, None => true | _, _ => false end in
+      ((if same_end && same_next then 0 else 2) +
        (if Bool.eqb hy (sp_hyphen s) then 0 else 4) +
        (if wd_ok then 0 else 8))%nat
   end.
